@@ -31,9 +31,9 @@ except ImportError:          # translator not present yet
 
 THEOREMS = []
 try:
-    from harness.C07.theorems import THEOREMS   # list kept beside the harness so notes/check agree
+    from harness.C07.theorems import THEOREMS, HAVE_DRIVER   # list kept beside the harness so notes/check agree
 except ImportError:
-    pass
+    HAVE_DRIVER = False
 
 NPROC = 16
 
@@ -172,7 +172,7 @@ def run(ctx, only=None):
     evaluations = 2 * len(items)
     # ------------------------------------------------------------------ (D) correspondence with the model
     ndiff, ncorr, diffs = 0, 0, []
-    exe = ctx.driver() if THEOREMS else None
+    exe = ctx.driver() if (THEOREMS and HAVE_DRIVER) else None
     if exe:
         msc = [s for s in allsc if s.model_ok()]
         lines = []
